@@ -271,6 +271,126 @@ def validate_traces(ck, traces, cfg="MPStudyTrace_fixed.cfg", label="repaired"):
     return verdicts
 
 
+# ---------------------------------------------------------------------------------------------------------------------
+# extension beyond the listed property: directory life cycle (force_restart sub-directories, post-processing, completion line)
+# ---------------------------------------------------------------------------------------------------------------------
+def _sd_state(st):
+    return [dict(exists=bool(d["exists"]), hdr=d["hdr"], cases=d["cases"], pp=d["pp"], completed=bool(d["completed"])) for d in st["dirs"]]
+
+
+def _sd_scenarios(behs):
+    """TLC behaviours of StudyDirs -> driver scenarios: one entry per incarnation (options, kill point, expected end state)"""
+    scs = []
+    for bi, beh in enumerate(behs):
+        incs, cur = [], None
+        for k in range(1, len(beh)):
+            prev, st = beh[k - 1][2], beh[k][2]
+            if prev["pc"] == "idle" and st["pc"] != "idle":
+                cur = {"fr": bool(st["opts"]["fr"]), "ppr": bool(st["opts"]["ppr"]), "start": _sd_state(prev), "trail": []}
+            if cur is None:
+                continue
+            cur["trail"].append(prev["pc"])
+            if st["pc"] == "idle" and prev["pc"] != "idle":
+                d0 = cur["start"][st["cur"] - 1]
+                d1 = _sd_state(st)[st["cur"] - 1]
+                if st["crashes"] > prev["crashes"]:
+                    at = prev["pc"]
+                    fresh = "whdr2" in cur["trail"] or at in ("mkdir", "whdr", "whdr2")
+                    if at == "mkdir" or (at == "whdr" and d1["exists"] == d0["exists"]):
+                        kill = "SKIP"               # killed before the first write: nothing on disk changes
+                    elif at == "whdr":
+                        kill = "MkStudyDir"
+                    elif at == "whdr2":
+                        kill = "HeaderBegin"
+                    elif at == "cases":
+                        if d1["cases"] == "some" and d0["cases"] == "none":
+                            kill = ("WMarker", 2)
+                        else:
+                            kill = "HeaderEnd" if fresh else "ParseOk"
+                    elif at == "pp":
+                        kill = "PoolDone"
+                    elif at == "pp_run":
+                        kill = "PPBegin"
+                    else:   # complete
+                        kill = "PPEnd" if "pp_run" in cur["trail"] else "PoolDone"
+                    cur.update(end="killed", kill=kill)
+                elif prev["pc"] == "raised":
+                    cur.update(end="raised", kill=None)
+                else:
+                    cur.update(end="returned", kill=None)
+                cur["expect"] = _sd_state(st)
+                incs.append(cur)
+                cur = None
+        if incs:
+            scs.append({"id": "sd%d" % bi, "incs": incs})
+    return scs
+
+
+def study_dirs_extension(ck, tier, seed):
+    from .. import tlaval
+    r = run_tlc("StudyDirs", "StudyDirs_default.cfg", workers=4, timeout=600)
+    ck.add_tlc(r, "StudyDirs (extension): directory life cycle, default options (post-processing always re-run)")
+    if not r.ok:
+        raise MachineryError("StudyDirs_default: %s violated" % r.violated)
+    rn = run_tlc("StudyDirs", "StudyDirs_norerun.cfg", workers=4, timeout=600, expect_violation=True)
+    ck.add_tlc(rn, "StudyDirs (extension): force_post_process_rerun=False allowed - CompletedPostProcessed is violated (observation)")
+    if rn.ok or rn.violated != "CompletedPostProcessed":
+        raise MachineryError("StudyDirs_norerun: expected CompletedPostProcessed to be violated, got %s" % rn.violated)
+    wd = core.scratch("sdsim")
+    os.makedirs(os.path.join(wd, "sim"))
+    nb = 10 if tier == "quick" else 60
+    run_tlc("StudyDirs", "StudyDirs_sim.cfg", workdir=wd, workers=1, timeout=600, depth=45, simulate="file=%s,num=%d" % (os.path.join(wd, "sim", "b"), nb), seed=seed + 5)
+    behs = []
+    for f in sorted(os.listdir(os.path.join(wd, "sim"))):
+        b = tlaval.parse_sim_file(os.path.join(wd, "sim", f))
+        if b:
+            behs.append(b)
+    # plus TLC's own counterexample of the no-rerun configuration, replayed on the real code
+    if rn.trace:
+        behs.append([(str(a), None, st) for a, st in rn.trace])
+    scs = _sd_scenarios(behs)
+    drv = []
+    for sc in scs:
+        incs = []
+        for i in sc["incs"]:
+            k = i["kill"]
+            incs.append({"fr": i["fr"], "ppr": i["ppr"], "kill": (k[0] if isinstance(k, tuple) else k), "kill_c": (k[1] if isinstance(k, tuple) else None)})
+        drv.append({"id": sc["id"], "incs": [x for x in incs if x["kill"] != "SKIP"], "map": [j for j, x in enumerate(incs) if x["kill"] != "SKIP"]})
+    out = core.scratch("sdout")
+    sf = os.path.join(out, "scen.json")
+    json.dump(drv, open(sf, "w"))
+    p = core.run_py(["-m", "harness.study_dirs_driver", sf, out], timeout=3000, env={"OMP_NUM_THREADS": "1", "NUMBA_NUM_THREADS": "1"})
+    if p.returncode != 0:
+        raise MachineryError("study_dirs_driver failed: %s" % p.stderr[-800:])
+    n_inc = n_kill = 0
+    observed_pp_gap = False
+    for sc, dv in zip(scs, drv):
+        rp = os.path.join(out, sc["id"], "result.json")
+        if not os.path.exists(rp):
+            raise MachineryError("no result for %s" % sc["id"])
+        res = json.load(open(rp))
+        for step, j in zip(res["steps"], dv["map"]):
+            inc = sc["incs"][j]
+            n_inc += 1
+            n_kill += inc["end"] == "killed"
+            ck.case(("study_dirs", sc["id"], j, inc["fr"], inc["ppr"], str(inc["kill"])), True)
+            real = step["dirs"]
+            want = inc["expect"]
+            real_n = [real[k] if k < len(real) else dict(exists=False, hdr="none", cases="none", pp="none", completed=False) for k in range(len(want))]
+            st_ok = (step["status"] == inc["end"]) or (inc["end"] == "raised" and step["status"].startswith("raised"))
+            if real_n != want or not st_ok or any(d["exists"] for d in real[len(want):]):
+                ck.violation({"clause": "study_dirs_conformance", "end": inc["end"], "kill": str(inc["kill"])},
+                             "directory life cycle: incarnation %d of %s (force_restart=%s, force_post_process_rerun=%s, kill at %s): real status %s, directories %s; StudyDirs expects %s, %s" % (
+                                 j + 1, sc["id"], inc["fr"], inc["ppr"], inc["kill"], step["status"], real, inc["end"], want), {"scenario": dv, "result": res})
+                break
+            if any(d["completed"] and d["pp"] != "done" for d in real_n):
+                observed_pp_gap = True
+    ck.notes["study_dirs_extension"] = {"behaviours": len(scs), "incarnations_replayed": n_inc, "sigkills": n_kill,
+                                        "observation": "with force_post_process_rerun=False a study killed inside its post-processing function is later reported complete without the function ever finishing (TLC counterexample of StudyDirs_norerun.cfg, reproduced on the real code: %s); default options are safe" % observed_pp_gap}
+    if rn.trace and not observed_pp_gap:
+        raise MachineryError("the CompletedPostProcessed counterexample did not reproduce on the real code: the StudyDirs model misdescribes post-processing")
+
+
 def run(tier, seed):
     ck = Check("C18", "model_checking", tier, seed)
     rng = random.Random(seed)
@@ -322,6 +442,7 @@ def run(tier, seed):
                        "events_head": [[e["inc"], e["ev"], e.get("c")] for e in t["events"][:25]]})
     ck.cov["traces_validated_against_impl"] = len(traces)
     ck.notes["traces_accepted"] = nacc
+    study_dirs_extension(ck, tier, seed)
     # binding self-test: a corrupted trace must be rejected
     good = [i for i, t in enumerate(traces) if verd[i]["accepted"] and any(e["ev"] == "Crash" for e in t["events"])]
     if good:
